@@ -5,8 +5,8 @@ import (
 	"runtime"
 )
 
-
 func emitModelCases(kind string, r *Rng, tier string, n int) {}
+
 var errSrcInjected = errors.New("injected source failure A")
 var errSrcInjected2 = errors.New("injected source failure B")
 
